@@ -18,6 +18,57 @@ pub enum Enc {
     Compact,
     Human,
     Json,
+    /// the same three with every struct (`Identifier`, `Allocator`) written as a sequence, the form used by
+    /// formats such as bincode or postcard (serde's `visit_seq` branch of the struct visitors)
+    CompactSeq,
+    HumanSeq,
+    JsonSeq,
+}
+
+impl Enc {
+    fn human(self) -> bool {
+        matches!(self, Enc::Human | Enc::HumanSeq)
+    }
+    fn is_json(self) -> bool {
+        matches!(self, Enc::Json | Enc::JsonSeq)
+    }
+}
+
+/// Structs as sequences; returns the new stream and, per old position, the new position (None for dropped tokens).
+pub fn structs_as_seqs(tokens: &[Token]) -> (Vec<Token>, Vec<Option<usize>>) {
+    let mut out = Vec::with_capacity(tokens.len());
+    let mut map = Vec::with_capacity(tokens.len());
+    for t in tokens {
+        match t {
+            Token::Struct { len, .. } => {
+                map.push(Some(out.len()));
+                out.push(Token::Seq { len: Some(*len) });
+            }
+            Token::StructEnd => {
+                map.push(Some(out.len()));
+                out.push(Token::SeqEnd);
+            }
+            Token::Field(_) => map.push(None),
+            other => {
+                map.push(Some(out.len()));
+                out.push(other.clone());
+            }
+        }
+    }
+    (out, map)
+}
+
+/// JSON: objects of the two struct types become arrays in field order.
+pub fn json_structs_as_arrays(v: &serde_json::Value) -> serde_json::Value {
+    use serde_json::Value;
+    match v {
+        Value::Array(a) => Value::Array(a.iter().map(json_structs_as_arrays).collect()),
+        Value::Object(o) => {
+            let order: &[&str] = if o.contains_key("index") { &["index", "generation"] } else { &["length", "free"] };
+            Value::Array(order.iter().filter_map(|k| o.get(*k)).map(json_structs_as_arrays).collect())
+        }
+        other => other.clone(),
+    }
 }
 
 /// One edit of a token stream, identified by (kind, position, parameter).
@@ -27,6 +78,11 @@ pub enum Edit {
     Duplicate(usize),
     Swap(usize, usize),
     Alter(usize, u8),
+    /// duplicate the whole group (sequence / tuple / struct) opening at this position and add one to the length the
+    /// enclosing sequence or tuple declares: a structurally valid stream with one element repeated
+    DupGroup(usize),
+    /// delete the whole group opening at this position and subtract one from the enclosing declared length
+    DelGroup(usize),
     /// JSON only: truncate the text to this many bytes
     Truncate(usize),
     /// JSON only: k-th structural edit of the value tree
@@ -134,6 +190,33 @@ pub fn apply_edit(tokens: &[Token], e: Edit) -> Option<Vec<Token>> {
         Edit::Alter(i, v) => {
             t[i] = alter(&tokens[i], v, tokens.len())?;
         }
+        Edit::DupGroup(i) | Edit::DelGroup(i) => {
+            let lv = level_of(tokens);
+            let is_open = |t: &Token| matches!(t, Token::Seq { .. } | Token::Tuple { .. } | Token::Struct { .. } | Token::TupleStruct { .. } | Token::Map { .. });
+            if !is_open(&tokens[i]) {
+                return None;
+            }
+            let end = (i + 1..tokens.len()).find(|j| lv[*j] == lv[i] && !is_open(&tokens[*j]))?;
+            // enclosing group: the nearest opener before i one level up
+            let parent = (0..i).rev().find(|j| lv[*j] == lv[i] - 1 && is_open(&tokens[*j]));
+            let dup = matches!(e, Edit::DupGroup(_));
+            if let Some(p) = parent {
+                let bump = |n: usize| if dup { Some(n + 1) } else { n.checked_sub(1) };
+                t[p] = match &tokens[p] {
+                    Token::Seq { len: Some(n) } => Token::Seq { len: Some(bump(*n)?) },
+                    Token::Tuple { len } => Token::Tuple { len: bump(*len)? },
+                    other => other.clone(),
+                };
+            }
+            if dup {
+                let group: Vec<Token> = tokens[i..=end].to_vec();
+                for (k, x) in group.into_iter().enumerate() {
+                    t.insert(end + 1 + k, x);
+                }
+            } else {
+                t.drain(i..=end);
+            }
+        }
         _ => return None,
     }
     Some(t)
@@ -146,6 +229,10 @@ pub fn single_edits(tokens: &[Token], all_swaps: bool) -> Vec<Edit> {
     for i in 0..n {
         v.push(Edit::Delete(i));
         v.push(Edit::Duplicate(i));
+        if i > 0 && matches!(tokens[i], Token::Seq { .. } | Token::Tuple { .. } | Token::Struct { .. } | Token::TupleStruct { .. } | Token::Map { .. }) {
+            v.push(Edit::DupGroup(i));
+            v.push(Edit::DelGroup(i));
+        }
         for j in i + 1..n {
             if all_swaps || lv[i] == lv[j] {
                 // swapping two identical tokens changes nothing
@@ -514,6 +601,26 @@ struct BaseSer {
     compact: Vec<Token>,
     human: Vec<Token>,
     json: String,
+    compact_seq: Vec<Token>,
+    human_seq: Vec<Token>,
+    json_seq: String,
+    /// old position -> new position for the two token encodings
+    compact_map: Vec<Option<usize>>,
+    human_map: Vec<Option<usize>>,
+}
+
+impl BaseSer {
+    fn tokens(&self, enc: Enc) -> &Vec<Token> {
+        match enc {
+            Enc::Compact => &self.compact,
+            Enc::Human => &self.human,
+            Enc::CompactSeq => &self.compact_seq,
+            _ => &self.human_seq,
+        }
+    }
+    fn json_text(&self, enc: Enc) -> &str {
+        if enc == Enc::Json { &self.json } else { &self.json_seq }
+    }
 }
 
 fn serialize_bases(depth: usize, limit: usize) -> Vec<BaseSer> {
@@ -527,7 +634,12 @@ fn serialize_bases(depth: usize, limit: usize) -> Vec<BaseSer> {
             let c = to_tokens(&ex.w, false).unwrap();
             let hu = to_tokens(&ex.w, true).unwrap();
             let j = serde_json::to_string(&ex.w).unwrap();
-            arena::with_system(|| BaseSer { hist: h.clone(), compact: c.0.clone(), human: hu.0.clone(), json: j.as_str().to_owned() })
+            arena::with_system(|| {
+                let (cs, cm) = structs_as_seqs(&c.0);
+                let (hs, hm) = structs_as_seqs(&hu.0);
+                let js = serde_json::to_string(&json_structs_as_arrays(&serde_json::from_str(&j).unwrap())).unwrap();
+                BaseSer { hist: h.clone(), compact: c.0.clone(), human: hu.0.clone(), json: j.as_str().to_owned(), compact_seq: cs, human_seq: hs, json_seq: js, compact_map: cm, human_map: hm }
+            })
         };
         drop(comp::ledger_end());
         let _ = arena::end();
@@ -567,12 +679,12 @@ pub fn worker_c11(tier: &str, shard: usize, nshards: usize, resume: Option<usize
             util::set_crash_descriptor(&format!("engine=fault-c11 case={} base={:?} enc={:?} edits={:?} json_idx={}", i, bases[c.base].hist, c.enc, c.edits, c.json_idx));
             let b = &bases[c.base];
             let verdict = match c.enc {
-                Enc::Json => {
-                    let inputs = json_inputs(&b.json);
+                enc if enc.is_json() => {
+                    let inputs = json_inputs(b.json_text(enc));
                     judge(&Input::Json(&inputs[c.json_idx]), cont_depth)
                 }
                 enc => {
-                    let base_tokens = if enc == Enc::Compact { &b.compact } else { &b.human };
+                    let base_tokens = b.tokens(enc);
                     let mut t = base_tokens.clone();
                     let mut ok = true;
                     for e in &c.edits {
@@ -588,7 +700,7 @@ pub fn worker_c11(tier: &str, shard: usize, nshards: usize, resume: Option<usize
                         i += nshards;
                         continue;
                     }
-                    judge(&Input::Tok(&t, enc == Enc::Human), cont_depth)
+                    judge(&Input::Tok(&t, enc.human()), cont_depth)
                 }
             };
             let slot = per_enc.entry(c.enc).or_insert([0; 3]);
@@ -665,6 +777,35 @@ fn enumerate(tier: &str) -> (Vec<BaseSer>, Vec<Case>) {
             cases.push(Case { base: bi, enc: Enc::Json, edits: vec![], json_idx: k });
         }
     }
+    // structs written as sequences: the unedited stream, every single edit, and the pairs of bookkeeping-number
+    // alterations (positions translated from the struct form, where the field names identify them)
+    for (bi, b) in bases.iter().enumerate() {
+        for (enc, toks, orig, map) in [(Enc::CompactSeq, &b.compact_seq, &b.compact, &b.compact_map), (Enc::HumanSeq, &b.human_seq, &b.human, &b.human_map)] {
+            cases.push(Case { base: bi, enc, edits: vec![], json_idx: 0 });
+            let singles = single_edits(toks, !quick);
+            for e in &singles {
+                cases.push(Case { base: bi, enc, edits: vec![*e], json_idx: 0 });
+            }
+            let numeric_pos: BTreeSet<usize> = (1..orig.len())
+                .filter(|i| matches!(orig[*i - 1], Token::Field("index") | Token::Field("generation") | Token::Field("length")))
+                .filter_map(|i| map[i])
+                .collect();
+            let numeric: Vec<Edit> = singles.iter().copied().filter(|e| matches!(e, Edit::Alter(i, _) if numeric_pos.contains(i))).collect();
+            for (x, e1) in numeric.iter().enumerate() {
+                for e2 in &numeric[x + 1..] {
+                    if let (Edit::Alter(i1, _), Edit::Alter(i2, _)) = (e1, e2) {
+                        if i1 != i2 && (quick || bi >= 6) {
+                            cases.push(Case { base: bi, enc, edits: vec![*e2, *e1], json_idx: 0 });
+                        }
+                    }
+                }
+            }
+        }
+        let n = json_inputs(&b.json_seq).len();
+        for k in 0..n {
+            cases.push(Case { base: bi, enc: Enc::JsonSeq, edits: vec![], json_idx: k });
+        }
+    }
     (bases, cases)
 }
 
@@ -677,7 +818,7 @@ pub fn main_c11(tier: &str, threads: usize, evidence: Option<&str>, replay_dir: 
         arena::init_thread(0);
         enumerate(tier)
     });
-    println!("config c11: {} base serializations x 3 encodings, {} inputs", bases.len(), cases.len());
+    println!("config c11: {} base serializations x 6 encodings, {} inputs", bases.len(), cases.len());
     let exe = std::env::current_exe().unwrap();
     let found: std::sync::Mutex<Vec<(String, String, String, u64)>> = std::sync::Mutex::new(Vec::new());
     let totals: std::sync::Mutex<(u64, u64, u64, u64, u64, BTreeMap<String, Vec<u64>>, u64)> = std::sync::Mutex::new((0, 0, 0, 0, 0, BTreeMap::new(), 0));
@@ -799,7 +940,7 @@ pub fn main_c11(tier: &str, threads: usize, evidence: Option<&str>, replay_dir: 
         "property_id": prop, "tier": tier, "seed": seed, "level": "fault_enumeration",
         "coverage": {
             "evaluations": total, "distinct_nontrivial": tt.0 + tt.1,
-            "rule": "inputs = every single edit (delete / duplicate / swap / alter, at every position; alterations per token kind: integers to {0,1,v-1,v+1,v+len,MAX,v^2}, identifier bytes every single-bit flip, declared lengths +-1/0/None, field and struct names renamed, type changes) of every base serialization in compact and human-readable token encodings, plus for JSON text: truncation at every byte offset, every value-tree edit and every duplicated key; thorough adds all swaps and all pairs of non-swap edits on the 6 smallest bases. non-trivial = reached brood's deserializer and was judged (Err or Ok), i.e. not rejected by the format layer with a panic of its own",
+            "rule": "inputs = every single edit (delete / duplicate / swap / alter at every position, duplicate / delete of every whole group with the enclosing declared length adjusted; alterations per token kind: integers to {0,1,v-1,v+1,v+len,MAX,v^2}, identifier bytes every single-bit flip, declared lengths +-1/0/None, field and struct names renamed, type changes) of every base serialization in compact and human-readable token encodings, each also with every struct written as a sequence (serde's visit_seq branch, as bincode/postcard use it), plus for JSON text (objects, and structs as arrays): truncation at every byte offset, every value-tree edit and every duplicated key; thorough adds all swaps and all pairs of non-swap edits on the 6 smallest bases. non-trivial = reached brood's deserializer and was judged (Err or Ok), i.e. not rejected by the format layer with a panic of its own",
             "samples": sample_cases,
             "bases": bases.len(), "inputs": cases.len(),
             "outcomes": {"ok_world_returned": tt.0, "err_returned": tt.1, "environment_panics_skipped": tt.2, "process_aborts": tt.6},
@@ -836,19 +977,19 @@ pub fn replay(path: &str) -> i32 {
         let b = &bases[c.base];
         println!("base history {:?}; encoding {:?}; edits {:?}", b.hist, c.enc, c.edits);
         let verdict = match c.enc {
-            Enc::Json => {
-                let inputs = json_inputs(&b.json);
-                println!("original: {}\ninput:    {}", b.json, inputs[c.json_idx]);
+            enc if enc.is_json() => {
+                let inputs = json_inputs(b.json_text(enc));
+                println!("original: {}\ninput:    {}", b.json_text(enc), inputs[c.json_idx]);
                 judge(&Input::Json(&inputs[c.json_idx]), 1)
             }
             enc => {
-                let base_tokens = if enc == Enc::Compact { &b.compact } else { &b.human };
+                let base_tokens = b.tokens(enc);
                 let mut t = base_tokens.clone();
                 for e in &c.edits {
                     t = apply_edit(&t, *e).unwrap();
                 }
                 println!("original: {:?}\ninput:    {:?}", base_tokens, t);
-                judge(&Input::Tok(&t, enc == Enc::Human), 1)
+                judge(&Input::Tok(&t, enc.human()), 1)
             }
         };
         println!("outcome: {}", verdict.outcome);
